@@ -20,8 +20,16 @@ type ChannelListener struct {
 	stop    context.CancelFunc
 }
 
-func (ln *ChannelListener) SendToChannel(conn net.Conn) {
-	ln.channel <- conn
+// SendToChannel hands conn to a pending or future Accept and reports true. Once the
+// listener is closed (or its context is done) nobody accepts any more: it then reports
+// false instead of blocking forever, and the caller keeps ownership of conn.
+func (ln *ChannelListener) SendToChannel(conn net.Conn) bool {
+	select {
+	case ln.channel <- conn:
+		return true
+	case <-ln.context.Done():
+		return false
+	}
 }
 
 func (ln *ChannelListener) Accept() (net.Conn, error) {
